@@ -1,7 +1,7 @@
 CFG = {
     "modules": ["Parsley.Props.C11"],
     "theorems": [
-        "Parsley.C11.resolve_fuel_sufficient",
+        "Parsley.C11.resolve_fuel_sufficient", "Parsley.C11.dom_terminates", "Parsley.C11.dom_never_panics",
     ],
     "partial": {},
     "n": {"quick": 2500, "thorough": 60000},
